@@ -1,4 +1,6 @@
-"""Partial-update (patch) part of C11 and C07: Props/C11_patch.v + mode c11p of the codec driver + Corr/PatchCorr.v.
+"""Partial-update (patch) part of C11 and C07: Props/C11_patch.v + mode c11p of the codec driver + Corr/PatchCorr.v (v2 generation);
+Props/C11_rootpatch.v (model Codec/RootPatch.v of the ROOT generator's X_PartialUpdate code) is an obligation of the same checks, its
+correspondence run is mode c11p of the root driver, evaluated with Corr/RootPatchCorr.v by checks/rootmode.py (post= callback).
 
 Two ways to use it:
 
@@ -21,6 +23,9 @@ from generic import run_check
 from lib import *
 
 PATCH_PROP = "Props.C11_patch"
+# the ROOT generator's X_PartialUpdate code has its own model and theorems (Codec/RootPatch.v, Props/C11_rootpatch.v); its correspondence
+# run is mode c11p of the root driver (checks/rootmode.py EXTRA_MODES / EXTRA_CORR), started by the check's post= callback
+ROOT_PATCH_PROP = "Props.C11_rootpatch"
 PATCH_CORR = "corr:partial-update (model check_patch / enc_patch / dec_patch vs the generated X_PartialUpdate bindings)"
 PATCH_TRUSTED = [
     "partial updates: the model Codec/Patch.v transcribes the generated CheckFields / MarshalRestLiPatch / UnmarshalRestLiPatch / "
@@ -80,12 +85,12 @@ def run(pid, tier, seed, replay, base=None, timeout=3000, post=None):
             pid, tier, seed, replay,
             tables=["TablesCodec"],
             model_targets=["Corr/PatchCorr.vo"],
-            prop_module=PATCH_PROP,
+            prop_module=[PATCH_PROP, ROOT_PATCH_PROP],
             driver="codecdrv", build=build,
             corr_name=PATCH_CORR,
             trusted=MODELLED + PATCH_TRUSTED,
             assume=[],
-            coqchk_modules=["GR." + PATCH_PROP],
+            coqchk_modules=["GR." + PATCH_PROP, "GR." + ROOT_PATCH_PROP],
             driver_timeout=timeout,
             post=post,
         )
@@ -94,12 +99,12 @@ def run(pid, tier, seed, replay, base=None, timeout=3000, post=None):
         pid, tier, seed, replay,
         tables=["TablesCodec"],
         model_targets=["Corr/CodecCorr.vo", "Corr/PatchCorr.vo"],
-        prop_module=props + [PATCH_PROP],
+        prop_module=props + [PATCH_PROP, ROOT_PATCH_PROP],
         driver="codecdrv", build=build,
         corr_name=base["corr"],
         trusted=MODELLED + PATCH_TRUSTED + list(base.get("extra_trusted", ())),
         assume=list(base.get("assume", ())),
-        coqchk_modules=base.get("coqchk") or ["GR." + m for m in props + [PATCH_PROP]],
+        coqchk_modules=base.get("coqchk") or ["GR." + m for m in props + [PATCH_PROP, ROOT_PATCH_PROP]],
         driver_timeout=timeout,
         post=rootmode.post_chain(patch_post(state, timeout), post),
     )
